@@ -207,17 +207,18 @@ class Speller:
                 parts.append(self.ident(e['schema']) + '.' + self.ident(e['name']))
         else:
             parts.append(self.type_text(typ))
-        if self.hit('col_no_type'):
-            parts = parts[:1]
+        no_type = self.hit('col_no_type')
+        if no_type:
+            parts = parts[:1]      # (and no legacy constraint word, which would be read as the type)
         legacy = []
         st = []
         if c['pk']:
-            if self.coin(0.2):
+            if not no_type and self.coin(0.2):
                 legacy.append(self.kw('pk'))
             else:
                 st.append(self.kw('pk') if not self.coin(0.3) else self.kw('primary key'))
         if c['unique']:
-            if self.coin(0.2):
+            if not no_type and self.coin(0.2):
                 legacy.append(self.kw('unique'))
             else:
                 st.append(self.kw('unique'))
